@@ -189,4 +189,26 @@ PROPS["C06"] = dict(
           "traces, the two extractions compare equal, managers are collectable once results are dropped. Reference-count balance of the "
           "ctypes reads and crash-freedom are NOT decided (sampled only).",
     note=BOUNDED_NOTE + "; ctypes reference handling and interpreter crash-freedom remain assumptions")
+PROPS["C18"] = dict(
+    level="exploration", contracts=["contracts.types_fmt"], unit_filter=lambda u: u.name.startswith("C18."),
+    legs=[dict(name="trees_C18", cmd="PYTHONPATH={repo} " + PY312 + " legs/trees.py C18"),
+          dict(name="trees_C18_py311", cmd="PYTHONPATH={repo} " + PY311 + " legs/trees.py C18", thorough_only=True)],
+    technique="bounded contract check: decoder (parse) applied to format() of generated Stack trees must return the tree's shape; "
+              "string obligations of the line grammar are not discharged deductively (see DESIGN.md: fallback B taken)",
+    claim="Bounded stand-in: on 600 (thorough 3000) pseudo-random Stack trees of depth/width <= 3 built from real frames x 8 option sets, "
+          "format() yields single newline-terminated lines, the executable decoder recovers the nesting from the box-drawing prefixes, "
+          "str(x) is the concatenation, ascii_only is the image under the fixed marker map, hidden items are printed iff "
+          "show_hidden_frames, nested error blocks (real multi-line tracebacks) keep the structure.",
+    note="NOT a proof; payload strings are single-line by construction of the generator (a repr containing a line separator would break the "
+         "single-line clause trivially)")
+PROPS["C19"] = dict(
+    level="exploration", contracts=["contracts.types_fmt"], unit_filter=lambda u: u.name.startswith("C19."),
+    legs=[dict(name="trees_C19", cmd="PYTHONPATH={repo} " + PY312 + " legs/trees.py C19"),
+          dict(name="trees_C19_py311", cmd="PYTHONPATH={repo} " + PY311 + " legs/trees.py C19", thorough_only=True)],
+    technique="bounded contract check against an executable structural specification of the summary",
+    claim="Bounded stand-in: on the same generated trees x all 8 combinations of show_contexts / show_hidden_frames / capture_locals the "
+          "summary equals the structural projection (one entry per visible frame; with contexts: with-line entry per visible context, its "
+          "inner stack, its child contexts, own entry omitted only when the last context is exiting; locals iff capture_locals), pickles, "
+          "and format_flat == header + StackSummary.format() + leaf + error (also for recursion with collapsed repeats).",
+    note="NOT a proof; traceback module behaviour assumed")
 NOT_APPLICABLE = {}
